@@ -74,6 +74,9 @@ def run_history(fam, params, r, length):
         kinds.append("dot_nd")
     if nd_a:
         kinds.append("rdot_nd")
+    has_apply = hasattr(op, "apply") and hasattr(op, "taxis")
+    if has_apply:
+        kinds.append("apply")
     held = []          # [array, saved_copy, label]
     problems = []
     calls = []         # (dir, xw, yw)
@@ -81,6 +84,25 @@ def run_history(fam, params, r, length):
     stats = {"calls": 0, "overwrites": 0, "repeats": 0, "strided": 0}
     for step in range(length):
         kind = r.choice(kinds)
+        if kind == "apply":
+            # Regression/LinearRegression.apply(t, x): evaluate at other locations; must not change later products
+            t2 = np.asarray(op.taxis, dtype=float) + 0.5 * (1 + r.randrange(3))
+            xm = to_model(W, pool_f[r.randrange(3)]).copy()
+            xm_saved = xm.copy()
+            t_saved = np.array(op.taxis, copy=True)
+            try:
+                ya = np.asarray(op.apply(t2, xm))
+            except Exception as e:
+                problems.append({"kind": "raised", "step": step, "call": kind, "error": "%s: %s" % (type(e).__name__, str(e)[:200])})
+                break
+            stats["calls"] += 1
+            order = len(xm) - 1
+            ref = np.vander(t2, order + 1, increasing=True) @ xm
+            if ya.shape != ref.shape or np.abs(ya - ref).max(initial=0) > 1e-9 * (1 + np.abs(ref).max(initial=0)):
+                problems.append({"kind": "apply(t, x) is not the polynomial evaluated at t", "step": step, "call": kind})
+            if not np.array_equal(xm, xm_saved) or not np.array_equal(np.asarray(op.taxis), t_saved):
+                problems.append({"kind": "input modified", "step": step, "call": kind})
+            continue
         fwd = kind in ("matvec", "matmat", "dot_nd")
         pool = pool_f if fwd else pool_a
         idx = [r.randrange(3)] if kind in ("matvec", "rmatvec", "dot_nd", "rdot_nd") else [r.randrange(3), r.randrange(3)]
